@@ -33,8 +33,11 @@ func main() {
 		{"NewTargetVerticalTiltAngle", func() *characteristic.Characteristic { return characteristic.NewTargetVerticalTiltAngle().Characteristic }},
 		{"NewCurrentTiltAngle", func() *characteristic.Characteristic { return characteristic.NewCurrentTiltAngle().Characteristic }},
 		{"NewBrightness", func() *characteristic.Characteristic { return characteristic.NewBrightness().Characteristic }},
+		{"NewActiveIdentifier", func() *characteristic.Characteristic { return characteristic.NewActiveIdentifier().Characteristic }},
+		{"NewSetDuration", func() *characteristic.Characteristic { return characteristic.NewSetDuration().Characteristic }},
 	}
-	values := []interface{}{float64(-45), float64(-90), float64(-1), float64(-0.5), float64(0), float64(30), float64(-91), "-30", -7}
+	values := []interface{}{float64(-45), float64(-90), float64(-1), float64(-0.5), float64(0), float64(30), float64(-91), "-30", -7,
+		float64(2147483647), float64(2147483648), float64(3000000000), float64(4294967301)}
 	for _, ct := range ctors {
 		for _, v := range values {
 			c := ct.mk()
@@ -46,7 +49,7 @@ func main() {
 			default:
 				c.UpdateValue(v)
 			}
-			fmt.Printf("%s %T(%v) -> %T(%v)\n", ct.name, v, v, c.Value, c.Value)
+			fmt.Printf("%s %T(%v) -> %T(%v) min=%v max=%v\n", ct.name, v, v, c.Value, c.Value, c.MinValue, c.MaxValue)
 		}
 	}
 }
